@@ -270,3 +270,46 @@ func c06CompareBytes(e *env, what string, c interface{}, implCls, implVal string
 		e.res.Fail(hx.Violation{Kind: "mismatch", What: "the byte-string model predicts " + m[0] + " but " + what + " returned normally", Case: c, Observed: implCls}, "")
 	}
 }
+
+// c06JsonPlans: the entries of the extended model (Model/InterpExt.v) on every kind of value -- |json and
+// |escapeJsString alone and in chains with the directives that hand the value through (noAutoescape, a
+// truncate with nothing to cut) or replace it by a string, and round(x, digits).
+func c06JsonPlans() []c06Plan {
+	chains := []string{"json", "escapeJsString", "noAutoescape|json", "truncate:100|json", "truncate:2|json", "truncate:5,false|json",
+		"json|escapeJsString", "escapeHtml|json", "json|truncate:5", "json|noAutoescape", "escapeJsString|json", "json|json",
+		"changeNewlineToBr|json", "escapeUri|json", "insertWordBreaks:3|json", "json|id", "bidiSpanWrap|json", "json:1"}
+	var sb strings.Builder
+	sb.WriteString("{namespace jv}\n")
+	names := []string{}
+	for j, ch := range chains {
+		sb.WriteString("\n/**\n * @param? v\n */\n{template .c" + strconv.Itoa(j) + "}\n[{$v|" + ch + "}]\n{/template}\n")
+		names = append(names, "jv.c"+strconv.Itoa(j))
+	}
+	for j, d := range []string{"1", "2", "3", "-1", "0", "15", "16", "'x'", "1.0"} {
+		sb.WriteString("\n/**\n * @param? v\n */\n{template .r" + strconv.Itoa(j) + "}\n[{round($v, " + d + ")}|{round($v, " + d + ")|json}]\n{/template}\n")
+		names = append(names, "jv.r"+strconv.Itoa(j))
+	}
+	files := []srcFile{{Name: "jv.soy", Text: sb.String()}}
+	vals := []data.Value{
+		data.Null{}, data.Undefined{}, data.Bool(true), data.Bool(false), data.Int(0), data.Int(-5), data.Int(math.MaxInt64), data.Int(math.MinInt64),
+		data.Float(1.5), data.Float(math.Copysign(0, -1)), data.Float(0), data.Float(0.5), data.Float(-2.5), data.Float(2.5), data.Float(1.25), data.Float(0.125),
+		data.Float(100000.25), data.Float(999999.5), data.Float(1e6), data.Float(1e300), data.Float(1e-7), data.Float(0.1), data.Float(3),
+		data.Float(math.NaN()), data.Float(math.Inf(1)), data.Float(math.Inf(-1)),
+		data.String(""), data.String("a<b>&'\"=c"), data.String("\u2028x\u2029"), data.String("h\u00e9llo"), data.String("\xff\xfe tail"), data.String("\x00\x01\x1f\x7f"),
+		data.String("</script>"), data.String("\u65e5\u672c\u8a9e"), data.String("\U0001F600"), data.String("\ufffd"), data.String("line1\nline2\r\n\ttab\\back"),
+		data.String("\u200b\u00ad\ufeff"), data.String("\xe2\x80"), data.String("\xed\xa0\x80"),
+		data.List(nil), data.List{}, data.List{data.Int(1), data.String("a"), data.Null{}}, data.List{data.List{}, data.List{data.List{data.Float(1.5)}}},
+		data.List{data.Undefined{}, data.Int(2)}, data.List{data.Float(math.NaN())}, data.List{data.Float(0.1)},
+		data.Map{}, data.Map(nil), data.Map{"b": data.Int(1), "a": data.Map{"z": data.Null{}, "y": data.List{data.Bool(true)}}},
+		data.Map{"<k>": data.Int(1), "\"q\"": data.Int(2), "\u00e9": data.Int(3), "": data.Int(4), "\xff": data.Int(5)}, data.Map{"u": data.Undefined{}},
+		data.Map{"f": data.Float(math.Inf(1))}, data.Map{"l": data.List(nil), "m": data.Map(nil)},
+	}
+	var plans []c06Plan
+	for _, v := range vals {
+		dsx := valueSexp(data.Map{"v": v}, newIDTable())
+		for _, n := range names {
+			plans = append(plans, c06Plan{c: c06Render{Kind: "render", Files: files, Template: n, Data: dsx, Tag: "json-values"}, nontriv: true, hasJSON: true})
+		}
+	}
+	return plans
+}
